@@ -31,6 +31,8 @@ var table = map[string]func(*core.Ctx){
 	"C06": props.C06,
 	"C12": props.C12,
 	"C10": props.C10,
+	"C17": props.C17,
+	"C20": props.C20,
 }
 
 func main() {
